@@ -149,6 +149,23 @@ fn main() {
 '''
 
 
+def _prune_target(tdir, limit_gb=6):
+    """keep the build cache of the replay driver bounded: every changed tree leaves incremental state and stale
+    artifacts behind; above the limit the incremental directories go first, then the whole directory"""
+    def size_gb():
+        try:
+            out = subprocess.run(['du', '-s', '--block-size=1M', tdir], stdout=subprocess.PIPE, text=True).stdout
+            return int(out.split()[0]) / 1024.0
+        except Exception:
+            return 0.0
+    if not os.path.isdir(tdir) or size_gb() <= limit_gb:
+        return
+    for prof in ('debug', 'release'):
+        shutil.rmtree(os.path.join(tdir, prof, 'incremental'), ignore_errors=True)
+    if size_gb() > limit_gb:
+        shutil.rmtree(tdir, ignore_errors=True)
+
+
 class Replayer:
     """Builds (once per run) the real crate from /repo's tree with the replay entry points of
     /verif/replay/*.rs appended as child modules, plus a tiny driver binary; then runs concrete
@@ -195,7 +212,9 @@ class Replayer:
                 '[profile.release]\nopt-level = 3\n')
             open(os.path.join(drv, 'src', 'main.rs'), 'w').write(REPLAY_MAIN)
             shutil.copy(os.path.join(d, 'Cargo.lock'), os.path.join(drv, 'Cargo.lock'))
-            env = dict(ENV, CARGO_TARGET_DIR=os.path.join(CACHE, 'replay-target'))
+            tdir = os.path.join(CACHE, 'replay-target')
+            _prune_target(tdir)
+            env = dict(ENV, CARGO_TARGET_DIR=tdir)
             for prof in ('dev', 'release'):
                 cmd = ['cargo', 'build', '--offline'] + (['--release'] if prof == 'release' else [])
                 p = subprocess.run(cmd, cwd=drv, env=env, stdout=subprocess.PIPE, stderr=subprocess.STDOUT,
